@@ -34,6 +34,7 @@ def run(prog: Program, rep: Report, tier: str):
     rep.rule("R16.4", "memo write only of the looked-up value under the queried key; no other mutation", floor=2)
     rep.rule("R16.5", "dict subclass without shadowing hooks", floor=2)
     rep.rule("R16.6", "the forward reference built for a key names that key (refs.forwardref rules, shared with R11.7)", floor=5)
+    rep.rule("R16.8", "the forward reference consulted last is built from the queried key itself", floor=1)
     rep.rule("R16.7", "the unwrapped form of a key is what the graph registered (unwrap rules, shared with R11.1)", floor=13)
     cls = prog.cls(f"{MOD}.TypeContext")
     miss = cls.methods.get("__missing__")
@@ -73,6 +74,17 @@ def run(prog: Program, rep: Report, tier: str):
     hit_paths = [p for p in ps if p.exit[0] == "return" and p.exit[1] == ("sub", SELF, UNWRAP)]
     ok_order = ok_order and bool(hit_paths) and all(any(pol and g == ("cmp", "in", UNWRAP, SELF) for g, pol in p.guards()) for p in hit_paths)
     rep.check(ok_order, "R16.1", q, miss.loc, "the unwrapped key is tried (and returned on a hit) before the forward reference", "the forward-reference lookup is not dominated by a failed lookup under the unwrapped key (or the unwrapped hit is not returned)", detail="order")
+    # R16.8: the reference tried last is the one that names the *queried* key (a reference built from the unwrapped form names
+    # another type: what is stored under the reference to an alias is then missed, what is stored under the reference to its
+    # target is handed out for the alias), and the miss path returns exactly what is stored under that reference
+    named = []
+    for p in fr_lookup_paths:
+        for tm in p.all_terms():
+            for s_ in T.walk(tm):
+                if T.is_call_to(s_, "typelib.py.refs.forwardref"):
+                    named.append(bool(s_[2]) and s_[2][0] == KEY)
+    ret_ok = all(p.exit[0] != "return" or (p.exit[1][0] == "sub" and p.exit[1][1] == SELF and T.is_call_to(p.exit[1][2], "typelib.py.refs.forwardref")) or p.exit[1] == ("sub", SELF, UNWRAP) for p in fr_lookup_paths)
+    rep.check(bool(named) and all(named) and ret_ok, "R16.8", q, miss.loc, "the last resort is self[forwardref(key)]: the reference that names the queried key itself", "the fallback reference is not built from the queried key (or its value is not what the miss returns): a value stored under the reference naming an alias is no longer found for it, and one stored under the reference to the alias's target answers for the alias", detail="reference-names-key")
     # R16.4
     stores = [(p, e) for p in ps for e in p.events if e[0] == "setitem" and e[1] == SELF]
     ok_store = all(e[2] == KEY and e[3] == ("sub", SELF, UNWRAP) for p, e in stores)
